@@ -56,11 +56,11 @@ DesignThms(outB) ==
 DesignThm ==
     CheckDesign => DesignThms(NodeBoxDesign(rows, cols, blank, grid, box, cuts, masking))
 
-\* not an invariant (used by a separate job that must FAIL): the reach
-\* box/2 + grid cannot be lowered by one for the node/box design
-ReachNotTight ==
-    \A p \in NodeBoxDesign(rows, cols, blank, grid, box, cuts, FALSE) :
-        \E q \in blank : Cheb(p, q) <= Reach(grid, box) - 1
+\* not an invariant (used by a separate job that must FAIL, so that clause (ii)
+\* is not vacuous for the design): the node/box design blanks pixels that are
+\* not blank in the input (a node whose whole box is blank)
+DesignAddsNoBlank ==
+    DesignNaN(rows, cols, blank, grid, box, cuts) \subseteq blank
 
 (* ------------------------ configuration lattice ----------------------- *)
 TheLattice == Lattice(LGrids, LBoxes, LCores, LStripes, LReprs)
